@@ -34,6 +34,22 @@ const (
 	shimP = "github.com/XiaoMi/Gaea/verifshim/"
 )
 
+// mutDir, if set, holds mutated copies of repo files: a deliberate property-breaking change
+// is checked without touching /repo.
+var mutDir string
+
+// srcFor returns the file to read for a /repo path.
+func srcFor(repoPath string) string {
+	if mutDir != "" {
+		rel, _ := filepath.Rel(repo, repoPath)
+		m := filepath.Join(mutDir, rel)
+		if _, err := os.Stat(m); err == nil {
+			return m
+		}
+	}
+	return repoPath
+}
+
 type rule struct {
 	Files  []string `json:"files"`  // globs relative to /repo
 	Sync   bool     `json:"sync"`   // sync -> vsync
@@ -58,7 +74,9 @@ func die(format string, a ...interface{}) {
 func main() {
 	check := flag.String("check", "", "check id (directory under checks/)")
 	out := flag.String("out", "", "output directory")
+	mut := flag.String("mutated", "", "directory holding mutated copies of /repo files (relative paths); they replace the originals")
 	flag.Parse()
+	mutDir = *mut
 	if *check == "" || *out == "" {
 		die("usage: mkoverlay -check <id> -out <dir>")
 	}
@@ -98,6 +116,17 @@ func main() {
 	}
 	injectDir(filepath.Join(verif, "checks", *check, "inject"), *check)
 
+	// mutated files replace the originals (rewrites below read the mutated copy)
+	if mutDir != "" {
+		filepath.Walk(mutDir, func(p string, info os.FileInfo, err error) error {
+			if err != nil || info.IsDir() {
+				return nil
+			}
+			rel, _ := filepath.Rel(mutDir, p)
+			replace[filepath.Join(repo, rel)] = p
+			return nil
+		})
+	}
 	// rewrites
 	n := 0
 	for _, r := range sp.Rewrite {
@@ -110,7 +139,7 @@ func main() {
 				if strings.HasSuffix(src, "_test.go") {
 					continue
 				}
-				res, err := rewriteFile(src, r)
+				res, err := rewriteFile(srcFor(src), r)
 				if err != nil {
 					die("%s: %v", src, err)
 				}
